@@ -21,12 +21,17 @@ def small_specs(ctx, n):
         kind = i % 4
         if kind == 0:
             # every other affine pair on a model with dead-end states (no feasible choice: value -inf, which the law maps to -inf)
-            dead = (i // 4) % 2 == 1
+            dead = (i // 4) % 3 != 0
             prof = {**SMALL, "T": [2, 3]}
             if dead:
-                prof.update(p_w=0.0, p_z=0.0, p_h=1.0, p_h_stoch=0.0, p_dead_label=1.0, p_a=1.0, sizes={"h": 3})
+                # the dead-end label (h = 2) is reachable through next_h = min(2, max(h, choice)) because the choices have 3 labels;
+                # beta and b are non-zero so that the law separates "-inf continuation" from "no continuation"
+                prof.update(p_w=0.0, p_z=0.0, p_h=1.0, p_h_stoch=0.0, p_dead_label=1.0, p_a=1.0, sizes={"h": 3, "a": 3, "b": 3},
+                            betas=[F(1, 2), F(3, 4), F(1)])
             m = gen.rand_model(rng, prof)
             mm, a, b = laws.affine(rng, m)
+            while dead and b == 0:
+                mm, a, b = laws.affine(rng, m)
             specs.append(mk_pair(len(specs), "affine", m, mm, a=a, b=b, label="small" + ("; dead-end states" if dead else "")))
         elif kind == 1:
             m = laws.with_beta(gen.rand_model(rng, {**SMALL, "T": [2, 3, 4]}), 0)
